@@ -538,6 +538,19 @@ impl Engine for Limits {
         let mut env = Env::default();
         let mut stack: Vec<Ty> = Vec::new();
         let mut twin = boot(&BootCfg { recording: false, intercept_emit: true, input: input.clone(), d2: false });
+        // constants holding whole collections (one push brings many items within reach of unbox /
+        // foreach), and something left on the stack by an earlier evaluation
+        let with_consts = rng.chance(1, 2);
+        if with_consts {
+            let h = "#( [ 1 2 3 4 ] const zgV4 #) #( { 1 \"a\" 2 \"b\" 3 \"c\" } const zgM3 #)".to_string();
+            let _ = twin.eval(&h);
+            history.push(h);
+            if rng.chance(2, 3) {
+                let h = (*rng.pick(&["11", "11 22", "11 22 33", "\"s\" |ff| 7"])).to_string();
+                let _ = twin.eval(&h);
+                history.push(h);
+            }
+        }
         for _ in 0..rng.below(3) {
             let n = 3 + rng.below(20);
             let mut g = Gen::new(rng, f.clone(), env.clone(), "h");
@@ -567,7 +580,45 @@ impl Engine for Limits {
                 let n = 3 + rng.below(50);
                 let mut g = Gen::new(rng, f, env, "p");
                 let (program, _) = g.source(n, &stack);
-                program
+                // every way the data stack or the heap grows, plain and at build time (where what
+                // earlier evaluations left on the stack is hidden from the block but still counts)
+                const GROWTH: &[&str] = &[
+                    "[ 1 2 3 ] unbox",
+                    "#( [ 1 2 3 4 ] unbox + + + #)",
+                    "#( [ 1 2 ] unbox [ 3 4 5 ] unbox + + + + #)",
+                    "1 2 3 3 collect",
+                    "#( 1 2 3 3 collect length #)",
+                    "#( 1 2 3 4 5 + + + + #)",
+                    "#( [ 1 2 3 ] dup dup length #)",
+                    "[ 7 8 9 ] let [ zga & zgb ] zga zgb",
+                    "{ 1 \"a\" 2 \"b\" } foreach I loop",
+                    "5 ^{ 1 \"a\" ^} dup tags",
+                    "#( 5 ^{ 1 \"a\" ^} dup tags drop #)",
+                    "enum zgE : zgA [ 1 2 3 ] unbox + + = zgB endenum zgB",
+                    ": zgf local a a a a a + + + ; 2 zgf",
+                    "#( 3 0 do I loop + + #)",
+                    "1 var zgv 2 var zgw zgv zgw",
+                    "#( 1 2 3 ~)",
+                    "[ 1 [ 2 [ 3 ] unbox ] unbox ] unbox",
+                ];
+                const GROWTH_CONST: &[&str] = &[
+                    "zgV4 unbox",
+                    "#( zgV4 unbox + + + #)",
+                    "#( zgV4 unbox zgV4 unbox + + + + + + + #)",
+                    "#( zgV4 dup dup length #)",
+                    "zgV4 foreach I loop",
+                    "#( 0 zgV4 foreach I + loop #)",
+                    "zgM3 foreach I loop",
+                    "zgV4 let [ zga zgb & zgc ] zga zgb zgc",
+                    "#( zgV4 4 collect length #)",
+                ];
+                let frag = if with_consts && rng.chance(2, 3) { *rng.pick(GROWTH_CONST) } else { *rng.pick(GROWTH) };
+                match rng.below(if with_consts { 3 } else { 4 }) {
+                    0 => format!("{} {}", program, frag),
+                    1 => format!("{} {}", frag, program),
+                    2 if with_consts => frag.to_string(),
+                    _ => program,
+                }
             }
         };
         let style = *rng.pick(&[Style::Eval, Style::CompileRun, Style::CompileStep]);
